@@ -661,7 +661,7 @@ impl World {
     }
 
     /// Map emitted packets to the messages they carry; C03/C08/C14/C15 bookkeeping and oracles.
-    fn account_flush(&mut self, d: Dir, pids: &[usize], flush_no: u64, pre_unacked: &BTreeMap<u8, Vec<UnackedInfo>>) -> Outcome {
+    fn account_flush(&mut self, d: Dir, pids: &[usize], flush_no: u64, _pre_unacked: &BTreeMap<u8, Vec<UnackedInfo>>) -> Outcome {
         let now = self.now_ms;
         let budget = self.cfg.bytes_per_tick;
         let check = !self.excluded(d.client);
@@ -839,15 +839,15 @@ impl World {
                     }
                     _ => {
                         let resend = cm.cfg.resend_ms;
-                        if let Some(un) = pre_unacked.get(&ch) {
-                            for u in un {
-                                let i = u.message_id.wrapping_sub(cm.id_base) as usize;
-                                let Some(m) = cm.msgs.get(i) else { continue };
+                        // 'unacknowledged' is decided by the model (an ack packet covering a packet that carried the unit and
+                        // was sent < 3 s earlier has been processed by the sender), not by asking the sender
+                        {
+                            for m in cm.msgs.iter() {
                                 for part in 0..m.parts {
-                                    if m.parts > 1 && u.acked_slices.get(part).copied().unwrap_or(false) {
+                                    if m.acked_part[part] {
                                         continue;
                                     }
-                                    if sent_units.contains(&(ch, u.message_id, part)) {
+                                    if sent_units.contains(&(ch, m.mid, part)) {
                                         continue;
                                     }
                                     // eligible = never sent, or last sent at least resend_time ago
@@ -866,7 +866,7 @@ impl World {
                                             format!(
                                                 "channel {ch}: eligible {} of message id {} ({} bytes needed) was not sent although {remaining} bytes of the tick budget were left after this channel",
                                                 if m.parts > 1 { format!("slice {part}") } else { "small message".into() },
-                                                u.message_id,
+                                                m.mid,
                                                 need
                                             ),
                                         ));
@@ -918,16 +918,17 @@ impl World {
             }
             let unbounded = budget >= 10_000_000;
             if unbounded {
-                for (ch, un) in pre_unacked.iter() {
-                    let cm = &ds.chans[ch];
-                    for u in un {
-                        let i = u.message_id.wrapping_sub(cm.id_base) as usize;
-                        let Some(m) = cm.msgs.get(i) else { continue };
+                for (ch, cm) in ds.chans.iter() {
+                    if !cm.cfg.kind.reliable() {
+                        continue;
+                    }
+                    for m in cm.msgs.iter() {
                         for part in 0..m.parts {
-                            if m.parts > 1 && u.acked_slices.get(part).copied().unwrap_or(false) {
+                            // unacknowledged by the model: no ack covering a packet that carried it was processed in time
+                            if m.acked_part[part] {
                                 continue;
                             }
-                            if sent_units.contains(&(*ch, u.message_id, part)) {
+                            if sent_units.contains(&(*ch, m.mid, part)) {
                                 continue;
                             }
                             let due = match m.tx_ms[part].last() {
@@ -939,7 +940,7 @@ impl World {
                                     "resend_late",
                                     format!(
                                         "channel {ch} message id {} part {part} is unacknowledged, last sent {:?} ms, now {now} ms, resend_time {} ms, but it is not in this flush",
-                                        u.message_id,
+                                        m.mid,
                                         m.tx_ms[part].last(),
                                         cm.cfg.resend_ms
                                     ),
